@@ -270,6 +270,8 @@ def run_check(mod, tier, base_seed, budget_s=None, quiet=False):
     n_batches = 0
     harness_error = None
     slice_units = []
+    o_units = []  # seed-based units re-executed under `python -O`
+    o_want = int(getattr(mod, "O_SLICE_UNITS", 200))
     ctx = multiprocessing.get_context("fork")
     with ProcessPoolExecutor(max_workers=NPROC, mp_context=ctx, initializer=_worker_init, initargs=(modname,)) as pool:
         pending = set()
@@ -290,6 +292,8 @@ def run_check(mod, tier, base_seed, budget_s=None, quiet=False):
                         break
                     if len(slice_units) < DETERMINISM_UNITS and n_batches % 3 == 0:
                         slice_units.extend(batch[: max(1, DETERMINISM_UNITS // 4)])
+                    if len(o_units) < o_want:
+                        o_units.extend(u for u in batch if isinstance(u, dict) and "seed" in u and not u.get("cold"))
                     pending.add(pool.submit(_run_batch, batch))
                     n_batches += 1
                 if not pending:
@@ -321,8 +325,9 @@ def run_check(mod, tier, base_seed, budget_s=None, quiet=False):
             harness_error = harness_error or "determinism slice: per-unit digests differ between two fresh interpreters"
     opt = None
     if slice_units and not os.environ.get("VERIF_SKIP_DETERMINISM"):
-        o_viol, o_evals, err = optimize_slice(mod, slice_units[:DETERMINISM_UNITS])
-        opt = {"units": len(slice_units[:DETERMINISM_UNITS]), "evaluations": o_evals, "violations": len(o_viol)}
+        o_all = slice_units[:DETERMINISM_UNITS] + o_units[:o_want]
+        o_viol, o_evals, err = optimize_slice(mod, o_all)
+        opt = {"units": len(o_all), "evaluations": o_evals, "violations": len(o_viol)}
         if err:
             harness_error = harness_error or err
         for scn in o_viol:
